@@ -56,7 +56,9 @@ def gen(rs: int, tier: str, index: int) -> dict:
         ra = stream(rs, "c01api")
         s["config"]["entry"] = "api"
         n = max(1, len(s["messages"]))
-        s["config"]["listen_fail_after"] = sorted(ra.randint(0, n) for _ in range(ra.choice([1, 1, 2])))
+        pts = sorted(ra.randint(0, n) for _ in range(ra.choice([1, 1, 2])))
+        # ... or the broker ends the stream in an orderly way: everything taken so far is drained before the next subscription
+        s["config"]["listen_end_after" if ra.random() < 0.35 else "listen_fail_after"] = pts
         s["config"]["N"] = None
         s["ops"] = [o for o in s["ops"] if o.get("op") != "stop"]          # this entry point's only stop request is cancellation: not graceful
     rl = stream(rs, "c01labels")
